@@ -1377,7 +1377,7 @@ package connect
 //@ constfield connectUnaryClientConn.responseHeader, connectUnaryClientConn.responseTrailer, connectUnaryClientConn.compressionPools, connectUnaryClientConn.bufferPool, connectUnaryClientConn.duplexCall
 //@ func (*connectUnaryClientConn).validateResponse(cc, response) res
 //@   tags C05, C06, C08, C09, C11, C15
-//@   requires cc != nil && response != nil && cc.responseHeader != nil && cc.responseTrailer != nil && cc.compressionPools != nil
+//@   requires cc != nil && cc.duplexCall != nil && cc.duplexCall.ctx != nil && response != nil && cc.responseHeader != nil && cc.responseTrailer != nil && cc.compressionPools != nil
 //@   requires cc.responseHeader != response.Header && cc.responseTrailer != response.Header && cc.responseHeader != cc.responseTrailer
 //@   requires response.Body != nil && !pooled(response.Body) && !typeis(response.Body, "*bytes.Buffer") && !typeis(response.Body, "*io.LimitedReader") && cc.bufferPool != nil && cc.unmarshaler.readMaxBytes >= 0
 //@   use trailer_key_split
@@ -1386,9 +1386,11 @@ package connect
 //@   ensures old(response.StatusCode) != 200 ==> res != nil                                             // label: non-200-is-an-error
 //@   ensures old(response.StatusCode) != 200 && called("(*connectUnaryUnmarshaler).UnmarshalFunc", 1) && !coded(termerr(response.Body)) && Is(termerr(response.Body), context.Canceled) ==> codeOf(res) == 1   // label: cancellation-while-reading-the-error-body-is-canceled   // tags: C15
 //@   ensures old(response.StatusCode) != 200 && called("(*connectUnaryUnmarshaler).UnmarshalFunc", 1) && !coded(termerr(response.Body)) && !Is(termerr(response.Body), context.Canceled) && Is(termerr(response.Body), context.DeadlineExceeded) ==> codeOf(res) == 4   // label: expiry-while-reading-the-error-body-is-deadline-exceeded   // tags: C15
-//@   ensures old(response.StatusCode) != 200 && !(called("(*connectUnaryUnmarshaler).UnmarshalFunc", 1) && callres("(*connectUnaryUnmarshaler).UnmarshalFunc", 1) == nil) && !coded(termerr(response.Body)) && !Is(termerr(response.Body), context.Canceled) && !Is(termerr(response.Body), context.DeadlineExceeded) ==> res.code == connectHTTPCode(old(response.StatusCode))   // label: without-a-valid-wire-error-the-code-comes-from-the-http-status
-//@   ensures old(response.StatusCode) != 200 && res != callres("(*connectUnaryUnmarshaler).UnmarshalFunc", 1) ==> res.meta != nil && res.meta != cc.responseHeader && (forall k seq :: {mapval(res.meta, k)} {mapdom(res.meta, k)} mapdom(cc.responseHeader, k) ==> mapdom(res.meta, k) && mapval(res.meta, k) == mapval(cc.responseHeader, k) ++ (if mapdom(cc.responseTrailer, k) then mapval(cc.responseTrailer, k) else []))   // label: the-headers-of-a-failed-response-are-the-error's-metadata-whether-or-not-its-body-could-be-decoded   // tags: C11, C02
-//@   ensures old(response.StatusCode) != 200 && res != callres("(*connectUnaryUnmarshaler).UnmarshalFunc", 1) ==> (forall k seq :: {mapval(res.meta, k)} {mapdom(res.meta, k)} mapdom(cc.responseTrailer, k) && !mapdom(cc.responseHeader, k) ==> mapdom(res.meta, k) && mapval(res.meta, k) == mapval(cc.responseTrailer, k))   // label: and-so-are-its-trailers   // tags: C11, C02
+//@   ensures old(response.StatusCode) != 200 && !(called("(*connectUnaryUnmarshaler).UnmarshalFunc", 1) && callres("(*connectUnaryUnmarshaler).UnmarshalFunc", 1) == nil) && !coded(termerr(response.Body)) && !Is(termerr(response.Body), context.Canceled) && !Is(termerr(response.Body), context.DeadlineExceeded) && cdone(cc.duplexCall.ctx) == nil ==> res.code == connectHTTPCode(old(response.StatusCode))   // label: without-a-valid-wire-error-the-code-comes-from-the-http-status
+//@   ensures old(response.StatusCode) != 200 && res != callres("(*connectUnaryUnmarshaler).UnmarshalFunc", 1) && cdone(cc.duplexCall.ctx) == nil ==> res.meta != nil && res.meta != cc.responseHeader && (forall k seq :: {mapval(res.meta, k)} {mapdom(res.meta, k)} mapdom(cc.responseHeader, k) ==> mapdom(res.meta, k) && mapval(res.meta, k) == mapval(cc.responseHeader, k) ++ (if mapdom(cc.responseTrailer, k) then mapval(cc.responseTrailer, k) else []))   // label: the-headers-of-a-failed-response-are-the-error's-metadata-whether-or-not-its-body-could-be-decoded   // tags: C11, C02
+//@   ensures old(response.StatusCode) != 200 && res != callres("(*connectUnaryUnmarshaler).UnmarshalFunc", 1) && cdone(cc.duplexCall.ctx) == nil ==> (forall k seq :: {mapval(res.meta, k)} {mapdom(res.meta, k)} mapdom(cc.responseTrailer, k) && !mapdom(cc.responseHeader, k) ==> mapdom(res.meta, k) && mapval(res.meta, k) == mapval(cc.responseTrailer, k))   // label: and-so-are-its-trailers   // tags: C11, C02
+//@   ensures old(response.StatusCode) != 200 && !(called("(*connectUnaryUnmarshaler).UnmarshalFunc", 1) && callres("(*connectUnaryUnmarshaler).UnmarshalFunc", 1) == nil) && cdone(cc.duplexCall.ctx) != nil ==> codeOf(res) == 1 || codeOf(res) == 4   // label: an-error-body-that-cannot-be-read-once-the-call's-context-is-done-is-canceled-or-deadline-exceeded-whatever-the-transport-reports   // tags: C15
+//@   ensures old(response.StatusCode) != 200 && !(called("(*connectUnaryUnmarshaler).UnmarshalFunc", 1) && callres("(*connectUnaryUnmarshaler).UnmarshalFunc", 1) == nil) && !coded(termerr(response.Body)) && !Is(termerr(response.Body), context.Canceled) && !Is(termerr(response.Body), context.DeadlineExceeded) && cdone(cc.duplexCall.ctx) == context.Canceled ==> codeOf(res) == 1   // label: canceled-if-the-context-says-so   // tags: C15
 //@   assert@call(readOnlyCompressionPools.Get#1): arg1 == hget(response.Header, "Content-Encoding")   // label: decoder-chosen-from-the-content-encoding-header   // tags: C05, C08
 //@   assert@call((*connectUnaryUnmarshaler).UnmarshalFunc#1): arg0.reader == response.Body && arg0.bufferPool == cc.bufferPool && arg0.compressionPool == callres("readOnlyCompressionPools.Get", 1) && arg0.readMaxBytes == cc.unmarshaler.readMaxBytes && !arg0.alreadyRead   // label: error-body-is-read-with-the-response's-encoding-and-under-the-client's-read-limit   // tags: C05, C06, C08, C09
 //@   assert@call((http.Header).Get#1): forall k seq :: {mapval(response.Header, k)} mapdom(response.Header, k) ==> (if isTrailerKey(k) then mapdom(cc.responseTrailer, k[8:]) && mapval(cc.responseTrailer, k[8:]) == mapval(response.Header, k) else mapdom(cc.responseHeader, k) && mapval(cc.responseHeader, k) == mapval(response.Header, k))   // label: headers-and-prefixed-trailers-are-split-with-values-intact   // tags: C11
